@@ -39,6 +39,9 @@ CHECKS = {
     "C33": ("structural", "model_checking", "TLA+ Structural.tla: links and the conditional-format area and rule reference are displaced by the same sigma as formulas; Clear / Undo / CutPaste actions; ClearUndoIdentity invariant; every behaviour replayed and get_links_list / get_conditional_formatting_list compared",
             "Link positions, CF area and CF rule formula after every step of every behaviour (all structural edits, clear, undo of clear, cut and paste of a linked cell).",
             "One rule, one area; copy (not cut) and paste over occupied cells are not modelled here.", "4 C33"),
+    "C18": ("reentry", "model_checking", "TLA+ Reentry.tla (Reenter is a stuttering step of the 4-component cell; also the input space) enumerated by TLC; TraceReentry.tla validates the recorded type / re-enter events of every input x language/locale pair",
+            "Exhaustive over all strings up to length 3 (thorough 4) over a 17-character alphabet plus a 145-entry vocabulary, in 8 (thorough 12) language/locale pairs; content, type, style and 15-digit value compared as interned ids by TLC.",
+            "Fresh default-styled cells only; pre-styled cells are future growth.", "4 C18"),
     "C24": ("xlsxrt", "model_checking", "TLA+ Xlsx.tla (Export then Import is a stuttering step; model-checked) and TraceXlsx.tla: recorded random histories with export+import events validated by TLC component by component",
             "Random catalogue histories (60 quick / 700 thorough, seeded) with a real xlsx export + import every 8 operations; 9 components of the statement compared as interned ids by TLC.",
             "I->S only: the specification has no opinion on file contents; sampled histories, not exhaustive.", "4 C24"),
@@ -117,6 +120,7 @@ def main():
             {"name": "cases", "path": "spec/{Calendar,Grid,Lang,F4,NumberInput,NumberFormat}.tla, bin/fam_cases.py, harness/src/cases.rs", "serves_properties": ["C08", "C09", "C11", "C25", "C29", "C30", "C19", "C20", "C21", "C22", "C23", "C34"], "kind_free_text": "TLC case enumeration with expected results, replayed on the implementation"},
             {"name": "structural", "path": "spec/Structural.tla, bin/fam_cases.py (StructuralFam), harness/src/structural.rs", "serves_properties": ["C12", "C13", "C14", "C15", "C33"], "kind_free_text": "TLC behaviour enumeration with expected abstract state, replayed on the implementation"},
             {"name": "xlsxrt", "path": "spec/Xlsx.tla, spec/TraceXlsx.tla, bin/fam_xlsx.py, harness/src/xlsxrt.rs", "serves_properties": ["C24"], "kind_free_text": "TLC trace validation of recorded export/import round trips"},
+            {"name": "reentry", "path": "spec/Reentry.tla, spec/TraceReentry.tla, bin/fam_xlsx.py, harness/src/reentry.rs", "serves_properties": ["C18"], "kind_free_text": "TLC input enumeration + trace validation of type / re-enter events"},
             {"name": "structure", "path": "spec/TraceWellFormed.tla", "serves_properties": ["C27"], "kind_free_text": "TLC trace validation of a state predicate"},
         ],
         "checks": checks,
